@@ -24,7 +24,8 @@ try:
             res.setdefault("unplaced", []).append(b); continue
         dst = os.path.join(wt, m.group(1), b); os.makedirs(os.path.dirname(dst), exist_ok=True); shutil.copy(f, dst); placed.append(os.path.join(m.group(1), b))
     res["demo_files"] = placed
-    tests = sorted(set(re.findall(r"-run[ =]'?\"?\^?([\w|]+)", run)))
+    tests = sorted({t for f in demos if f.endswith("_test.go") for t in re.findall(r"^func (Test\w+)\(", open(f).read(), re.M)})
+    tests = ["^(" + "|".join(tests) + ")$"] if tests else []
     pk = {}
     for pf in placed:
         mod, rel = pf.split("/", 1)
